@@ -14,6 +14,9 @@
     `ringMeets`.)  GEOS itself is not modelled: that `intersects` / `dwithin` compute these predicates is compared by
     the correspondence on exact-grid inputs.
     Changing a lanelet that is already in a network is NOT modelled (property C11).
+    Part II c: several live networks derived from one another (source and copies all used further, `CR.Index.wrun`):
+    an operation on one leaves the others as they were, and every one of them is synchronised after any admissible history
+    (`C06_world_on_frame`, `C06_world_fork_frame`, `C06_world_sync`, `C06_world_lookup`).
   Part III (obstacles): `get_obstacles`, `map_obstacles_to_lanelets`, `filter_obstacles_in_network` are that same scan.
 
   Partial clauses (full statements kept as `def …_full : Prop`):
@@ -731,6 +734,111 @@ theorem C06_witness_rect_stale :
   intro h
   have := h.1 _ rfl
   revert this
+  decide +kernel
+
+/-! ## Part II c — several live networks derived from one another
+
+  A deep copy / pickle round trip / `create_from_lanelet_network` / `create_from_lanelet_list(net.lanelets)` leaves the
+  source alive next to the copy.  World = list of the live networks; `WOp.on k o` acts on slot `k`, `WOp.fork k f`
+  appends a copy of slot `k`.  Claim: an operation on one slot leaves every other slot as it was (frame), a fork leaves
+  every old slot as it was and adds the copy, and after ANY admissible history of rebuilding operations EVERY live
+  network is synchronised — so each answers its lookups with its OWN current lanelets (`C06_find_position`,
+  `C06_find_shape`), whatever happened to its siblings. -/
+
+/-- Admissible world operation: the slot exists; on it the operation is admissible and rebuilds. -/
+def WAdm (w : List Net) : WOp → Prop
+  | .on k o => k < w.length ∧ rebuilds o = true ∧ ∀ n, w[k]? = some n → Adm n o
+  | .fork k f => k < w.length ∧ Function.Injective f
+
+def WAdmSeq : List Net → List WOp → Prop
+  | _, [] => True
+  | w, o :: os => WAdm w o ∧ ∀ w', wstep w o = .ok w' → WAdmSeq w' os
+
+/-- Frame: an operation on slot `k` leaves the number of live networks and every other slot unchanged, and slot `k`
+    holds what the operation makes of the network that was there. -/
+theorem C06_world_on_frame (w w' : List Net) (k : Nat) (o : Op) (h : wstep w (.on k o) = .ok w') :
+    w'.length = w.length ∧ (∀ j, j ≠ k → w'[j]? = w[j]?) ∧
+      ∃ n n', w[k]? = some n ∧ step n o = .ok n' ∧ w'[k]? = some n' := by
+  simp only [wstep] at h
+  cases hk : w[k]? with
+  | none => simp [hk] at h
+  | some n =>
+    simp only [hk] at h
+    cases hs : step n o with
+    | error e => simp [hs] at h
+    | ok n' =>
+      simp only [hs, Except.ok.injEq] at h
+      subst h
+      have hlt : k < w.length := by
+        rcases Nat.lt_or_ge k w.length with h1 | h1
+        · exact h1
+        · rw [List.getElem?_eq_none h1] at hk; cases hk
+      refine ⟨List.length_set, fun j hj => ?_, n, n', rfl, hs, ?_⟩
+      · exact List.getElem?_set_ne (fun e => hj e.symm)
+      · rw [List.getElem?_set_self hlt]
+
+/-- Frame: a fork leaves every live network as it was and appends the copy of the source. -/
+theorem C06_world_fork_frame (w w' : List Net) (k : Nat) (f : Nat → Nat) (h : wstep w (.fork k f) = .ok w') :
+    ∃ n, w[k]? = some n ∧ w' = w ++ [copyNet f n] ∧ (∀ j, j < w.length → w'[j]? = w[j]?) ∧
+      w'[w.length]? = some (copyNet f n) := by
+  simp only [wstep] at h
+  cases hk : w[k]? with
+  | none => simp [hk] at h
+  | some n =>
+    simp only [hk, Except.ok.injEq] at h
+    subst h
+    refine ⟨n, rfl, rfl, fun j hj => List.getElem?_append_left hj, ?_⟩
+    simp
+
+/-- One world step keeps every live network synchronised (and never raises). -/
+theorem C06_world_step (w : List Net) (o : WOp) (hs : ∀ n ∈ w, Sync n) (ha : WAdm w o) :
+    ∃ w', wstep w o = .ok w' ∧ ∀ n ∈ w', Sync n := by
+  cases o with
+  | on k o =>
+    obtain ⟨hk, hr, hadm⟩ := ha
+    have hget : w[k]? = some w[k] := List.getElem?_eq_getElem hk
+    have hsn : Sync w[k] := hs _ (List.getElem_mem hk)
+    obtain ⟨n', h1, hb', hf', _⟩ := C06_step w[k] o hsn.1 (hadm _ hget)
+    refine ⟨w.set k n', by simp only [wstep, hget, h1], fun m hm => ?_⟩
+    rcases List.mem_or_eq_of_mem_set hm with hm | hm
+    · exact hs m hm
+    · subst hm; exact ⟨hb', hf' hr hsn.2⟩
+  | fork k f =>
+    obtain ⟨hk, hf⟩ := ha
+    have hget : w[k]? = some w[k] := List.getElem?_eq_getElem hk
+    have hsn : Sync w[k] := hs _ (List.getElem_mem hk)
+    refine ⟨w ++ [copyNet f w[k]], by simp only [wstep, hget], fun m hm => ?_⟩
+    rcases List.mem_append.mp hm with hm | hm
+    · exact hs m hm
+    · rw [List.mem_singleton] at hm; subst hm; exact C06_sync_copy _ f hf hsn.1
+
+/-- Any admissible history on several live networks derived from one another (default rebuilding flags): every live
+    network — source and copies alike — is synchronised at the end. -/
+theorem C06_world_sync (ops : List WOp) : ∀ (w : List Net), (∀ n ∈ w, Sync n) → WAdmSeq w ops →
+    ∃ w', wrun w ops = .ok w' ∧ ∀ n ∈ w', Sync n := by
+  induction ops with
+  | nil => intro w hs _; exact ⟨w, rfl, hs⟩
+  | cons o os ih =>
+    intro w hs ha
+    obtain ⟨w1, h1, hs1⟩ := C06_world_step w o hs ha.1
+    obtain ⟨w2, h2, hs2⟩ := ih w1 hs1 (ha.2 w1 h1)
+    exact ⟨w2, by simp only [wrun, h1, h2], hs2⟩
+
+/-- End to end for two networks derived from one another: every live network answers position queries with the set of
+    ITS OWN current lanelets within the tolerance. -/
+theorem C06_world_lookup (tol : Rat) (htol : 0 ≤ tol) (ops : List WOp) (ha : WAdmSeq [Net.empty] ops) (pts : List Pt) :
+    ∃ w, wrun [Net.empty] ops = .ok w ∧ ∀ n ∈ w, ∃ r, findByPosition (treeWithin tol) n pts = .ok r ∧
+      List.Forall₂ (fun p ids => ids.Nodup ∧
+        ∀ i, i ∈ ids ↔ ∃ l ∈ n.lanelets, l.id = i ∧ withinTol tol (l.right ++ l.left.reverse) p = true) pts r := by
+  obtain ⟨w, h, hs⟩ := C06_world_sync ops [Net.empty]
+    (fun n hn => by rw [List.mem_singleton] at hn; subst hn; exact sync_empty) ha
+  exact ⟨w, h, fun n hn => C06_find_position tol htol n (hs n hn) pts⟩
+
+/-- Non-vacuity, and the scenario of a shared `_buffered_polygons`: fork, remove a lanelet from the copy, then rebuild
+    the source by an addition — the source still owns and reports lanelet 2, the copy does not. -/
+example :
+    (wrun [fromList id [⟨1, 1, [], []⟩, ⟨2, 2, [], []⟩]] [.fork 0 (· + 10), .on 1 (.remove 2 true), .on 0 (.add ⟨4, 4, [], []⟩ true)]).map
+      (fun w => w.map (fun n => (n.lanelets.map (·.id), n.idOf.map (·.2)))) = .ok [([1, 2, 4], [1, 2, 4]), ([1], [1])] := by
   decide +kernel
 
 end CR.Props.C06
